@@ -218,7 +218,8 @@ def syncml_tree_docs(seed, T, n):
     out = []
     types = [b"text/x-vcard", b"text/x-vcalendar", b"text/clear", b"text/directory;profile=vCard", b"text/plain",
              b"application/vnd.syncml-devinf+wbxml", b"application/vnd.syncml-devinf+xml",
-             b"application/vnd.syncml.dmtnds+wbxml", b"application/vnd.syncml.dmtnds+xml", b"text/x-vcard2", b""]
+             b"application/vnd.syncml.dmtnds+wbxml", b"application/vnd.syncml.dmtnds+xml", b"text/x-vcard2", b"",
+             b"application/vnd.syncml-devinf+wbxml", b"application/vnd.syncml-devinf+wbxml", b"application/vnd.syncml.dmtnds+wbxml"]
     for i in range(n):
         lid = rng.choice([2201, 2101, 2001])
         if "Data" not in {r[0] for r in T.langs[lid]["tags_rows"]}:
@@ -237,7 +238,9 @@ def syncml_tree_docs(seed, T, n):
             items = []
             for _ in range(rng.choice([1, 1, 2, 3])):
                 c = rng.below(8)
-                if c < 3:
+                if ty.endswith(b"+wbxml") and c < 5:
+                    items.append(("O", ebytes))
+                elif c < 3:
                     items.append(("S", rng.choice([b"BEGIN:VCARD", b"x", b"END:VCARD\r\n", b"]]>", b"a<b"])))
                 elif c < 5:
                     items.append(("O", ebytes if ty.endswith(b"+wbxml") and rng.chance(3, 4) else rng.choice([b"BEGIN:VCARD\r\nEND:VCARD", b"\x01\x02", ebytes])))
